@@ -15,6 +15,7 @@ func init() {
 			"R-C01-1: every read of the peer's reader reachable from ReadPacket is 'full' (accumulate-until-size loop whose bound is the buffer length, or io.ReadFull) unless the field is one byte wide. " +
 			"R-C01-2: writer and reader agree on the frame grammar: the set of type predicates under which no length field is read/written is {IsHeartbeat} on both sides; both refuse the encrypted flag; the writer gzips exactly when the written type byte carries the compressed flag and the reader inflates exactly then; the length written is len() of the very slice written as body. " +
 			"R-C01-3: the body reader returns exactly the accumulated prefix of a buffer whose length is the declared size (cannot consume bytes of the next packet). " +
+			"R-C01-5: a buffer taken from the buffer pool and given back (Release, also deferred) in a function is never part of what that function returns (a decoded body must not alias memory the next read overwrites). " +
 			"R-C01-4: message-oriented transports adapted to io.Reader buffer the unread remainder of a message and serve it before reading the next message. " +
 			"Decides these structural necessary conditions; does not decide byte equality through gzip or the behaviour of third-party transports.",
 		Run: runC01,
@@ -367,6 +368,14 @@ func runC01(r *Report) {
 		r.Floor("R-C01-3", 2, "body accumulate loop and result slice")
 	}
 
+	// ---- R-C01-5 decoded data never aliases a released pool buffer ------------
+	for _, g := range r.P.FuncsIn(pkg) {
+		for _, al := range Calls(g, false, "BufferManager.Allocate") {
+			checkPoolOwnership(r, g, al)
+		}
+	}
+	r.Floor("R-C01-5", 4, "pooled buffer allocations in internal/stream")
+
 	// ---- R-C01-4 message transports adapted to a byte stream ----------------
 	for _, pk := range []string{"internal/protocol/adapter", "internal/client/transport", "internal/httpservice/modules/websocket"} {
 		for _, f := range r.P.FuncsIn(pk) {
@@ -496,4 +505,83 @@ func checkMsgAdapter(r *Report, f *ssa.Function, rm ssa.CallInstruction) {
 	}
 	r.Ob("R-C01-4", CallPos(rm), served, "the next message is read only when the remainder buffer is empty (buffered bytes are served first, in order)", fn, "remainder-served-first")
 	_ = types.Typ
+}
+
+// aliases: does v alias buffer b (same value, re-slice, conversion, phi)?
+func aliases(v, b ssa.Value, seen map[ssa.Value]bool) bool {
+	if v == b {
+		return true
+	}
+	if v == nil || seen[v] {
+		return false
+	}
+	seen[v] = true
+	switch x := v.(type) {
+	case *ssa.Slice:
+		return aliases(x.X, b, seen)
+	case *ssa.ChangeType:
+		return aliases(x.X, b, seen)
+	case *ssa.Convert:
+		return aliases(x.X, b, seen)
+	case *ssa.MakeInterface:
+		return aliases(x.X, b, seen)
+	case *ssa.Phi:
+		for _, e := range x.Edges {
+			if aliases(e, b, seen) {
+				return true
+			}
+		}
+	case *ssa.UnOp:
+		if x.Op == token.MUL {
+			if a, ok := x.X.(*ssa.Alloc); ok {
+				for _, st := range storesTo(a) {
+					if aliases(st.Val, b, seen) {
+						return true
+					}
+				}
+			}
+		}
+	}
+	return false
+}
+
+// checkPoolOwnership: if the buffer is released in this function (call or
+// defer), no return value of the function may alias it on a path after /
+// covered by the release.
+func checkPoolOwnership(r *Report, f *ssa.Function, alloc ssa.CallInstruction) {
+	b := alloc.(ssa.Value)
+	fn := r.P.FuncName(f)
+	var releases []ssa.CallInstruction
+	for _, g := range WithAnon(f) {
+		for _, rc := range Calls(g, false, "BufferManager.Release") {
+			if a := Arg(rc, 0); a != nil && aliases(a, b, map[ssa.Value]bool{}) {
+				releases = append(releases, rc)
+			}
+		}
+	}
+	bad := ""
+	for _, ret := range Returns(f) {
+		for i := range ret.Results {
+			v := RetVal(ret, i)
+			if !aliases(v, b, map[ssa.Value]bool{}) {
+				continue
+			}
+			for _, rc := range releases {
+				if _, isDefer := rc.(*ssa.Defer); isDefer {
+					bad = "the buffer is returned while a deferred Release gives it back to the pool"
+				} else if rc.Parent() == f {
+					hits := WalkFrom(nil, rc.(ssa.Instruction), func(in ssa.Instruction) int {
+						if in == ssa.Instruction(ret) {
+							return Hit
+						}
+						return Cont
+					}, nil)
+					if len(hits) > 0 {
+						bad = "the buffer is returned after it was released to the pool"
+					}
+				}
+			}
+		}
+	}
+	r.Ob("R-C01-5", CallPos(alloc), bad == "", map[bool]string{true: "pooled buffer is either copied out before Release or handed over without Release", false: bad + ": the next packet read overwrites the bytes the caller still holds"}[bad == ""], fn, "pool-buffer-ownership")
 }
